@@ -217,6 +217,12 @@ func (h *HarnessRun) runPath(pf *Portfolio, script []int) {
 		h.cond.Broadcast()
 		return
 	}
+	if n%2000 == 0 {
+		h.mu.Lock()
+		ql := len(h.queue)
+		h.mu.Unlock()
+		fmt.Fprintf(os.Stderr, "  ... %s: %d paths, queue %d, smt %d, %.0fs\n", h.spec.Func, n, ql, atomic.LoadInt64(&eng.stats.smtQueries), time.Since(h.t0).Seconds())
+	}
 	p := newPath(eng, pf, h, script)
 	p.globals = map[*ssa.Global]*Cell{}
 	p.byteVars = map[int]int{}
